@@ -65,10 +65,51 @@ def discriminator_key_if_absent(ctx, rule):
     ctx.check(ok, rule, da.qualname, st[0] if st else da.node.body[0],
               "the discriminator key is written even when the alternative's own serialization already produced it: a member declaring the discriminator as a multi-valued Literal field gets its value overwritten by the alternative's key and no longer round-trips",
               da, da.node, detail="res[self.alias] = self.key only if res is a dict and the key is absent")
+    # every alternative of a discriminated union is wrapped: whether the key is present is a run-time fact
+    # (exclude_defaults / exclude_unset / skip can drop a declared field), never a build-time one
+    dm = model.func("apischema.serialization.SerializationMethodVisitor.discriminate")
+    n_da = 0
+    for c in ast.walk(dm.node):
+        if not isinstance(c, ast.Call):
+            continue
+        nm = (dotted(c.func) or "").split(".")[-1]
+        if nm == "DiscriminatedAlternative":
+            n_da += 1
+            args = [norm(a) for a in c.args] + [norm(k.value) for k in c.keywords]
+            ctx.check(any("self.aliaser(discriminator.alias)" == a or a == "alias" for a in args) and "key" in args, rule, f"{dm.qualname}:DiscriminatedAlternative", c,
+                      "the alternative is not built with the aliased discriminator name and its mapping key", dm, c, detail="(cls, method, aliaser(discriminator.alias), key)")
+        elif nm == "UnionAlternative":
+            ctx.fail(rule, f"{dm.qualname}:UnionAlternative", c, "a member of a discriminated union is serialized through a plain UnionAlternative: when its own serialization lacks the discriminator (field dropped by exclude_defaults / exclude_unset / skip) the key is not added and the datum no longer deserializes", dm.module.relpath, c.lineno)
+    ctx.check(n_da >= 1, rule, f"{dm.qualname}:wrapped", dm.node.body[0], "discriminate() no longer builds DiscriminatedAlternative for the members", dm, dm.node, detail="DiscriminatedAlternative per member")
 
 
 
 WRAPPERS = {"VariadicTupleMethod", "FrozenSetMethod"}  # accept what the wrapped list node accepts
+
+
+def factory_key_rule(ctx, rule):
+    """who may declare a by-type dispatch key: only _factory(factory, K)"""
+    model = ctx.model
+    # who may declare a dispatch key: only _factory(factory, K), whose K sites are checked above
+    n_ctor = 0
+    for fi in model.functions.values():
+        if not fi.module.name.startswith("apischema.deserialization"):
+            continue
+        for c in walk_no_nested(fi.node):
+            if not isinstance(c, ast.Call):
+                continue
+            fn = (dotted(c.func) or "").split(".")[-1]
+            if fn == "DeserializationMethodFactory":
+                n_ctor += 1
+                keyed = len(c.args) >= 2 or any(k.arg == "cls" for k in c.keywords)
+                ctx.check(fi.qualname == f"{VISITOR}._factory" or not keyed, rule, f"{fi.qualname}:DeserializationMethodFactory", c,
+                          "a DeserializationMethodFactory is built with a dispatch key outside _factory(): the key escapes the key / accept-set rule", fi, c, detail="only _factory builds keyed factories")
+            if fn == "replace" and any(k.arg == "cls" for k in c.keywords):
+                kw = next(k for k in c.keywords if k.arg == "cls")
+                ctx.check(norm(kw.value) in ("self.cls", "None"), rule, f"{fi.qualname}:replace(cls=)", c,
+                          f"`{short(c, 70)}` re-keys a factory for by-type dispatch (`cls={norm(kw.value)}`) outside _factory(): nothing relates that class to what the built node accepts (a conversion with several sources, an Enum / Literal source ... accept other JSON types)",
+                          fi, c, detail="dispatch key only through _factory(factory, K)")
+    ctx.require(n_ctor >= 1, "constructor call of DeserializationMethodFactory not found")
 
 
 def check(ctx):
@@ -170,6 +211,7 @@ def check(ctx):
             else:
                 raise AnalysisError(f"{m.qualname}: unrecognised dispatch key `{norm(keynode)}`")
     ctx.require(n_keyed >= 5, f"only {n_keyed} keyed _factory sites")
+    factory_key_rule(ctx, "C13.R1")
     # the dispatcher itself looks up by exact type
     ub = model.func(f"{DESER_MOD}.UnionByTypeMethod.deserialize")
     ok = any(isinstance(n, ast.Subscript) and norm(n.value) == "self.method_by_cls" and norm(n.slice) == "type(data)" for n in walk_no_nested(ub.node))
@@ -234,6 +276,8 @@ def check(ctx):
 
 
 def mutants(mb):
+    mb.add_text("discriminate-plain-alternative", "apischema/serialization/__init__.py", "                    DiscriminatedAlternative(\n                        expected_class(tp),\n                        self.visit(tp),\n                        self.aliaser(discriminator.alias),\n                        key,\n                    )\n", "                    UnionAlternative(expected_class(tp), self.visit(tp))\n", "C13.R4", "discriminate")
+    mb.add_text("conversion-factory-keyed", "apischema/deserialization/__init__.py", "        return self._factory(factory, validation=not dynamic)\n", "        return dataclasses.replace(self._factory(factory, validation=not dynamic), cls=conv_factories[0].cls)\n", "C13.R1", "replace(cls=)")
     D = "apischema/deserialization/__init__.py"
     M = "apischema/deserialization/methods.py"
     S = "apischema/serialization/methods.py"
